@@ -28,7 +28,7 @@ _SYMTYPES = (SymStr, SymInt, SymBool)
 
 
 def _sym(x):
-    return isinstance(x, _SYMTYPES)
+    return isinstance(x, _SYMTYPES) or getattr(x, '_sx_symdec', False)
 
 
 # ---------------------------------------------------------------------- helpers (runtime)
@@ -109,6 +109,13 @@ _TYPEMAP = None
 
 
 def _sx_isinstance(x, t):
+    if getattr(x, '_sx_symdec', False):
+        if isinstance(t, tuple):
+            return any(_sx_isinstance(x, u) for u in t)
+        try:
+            return issubclass(float, t)
+        except TypeError:
+            return False
     if isinstance(x, _SYMTYPES):
         if isinstance(x, SymBytes):
             stand = bytes
@@ -136,13 +143,16 @@ def _sx_str(*a, **k):
             return _int_to_str(x)
         if isinstance(x, SymBool):
             return 'True' if x else 'False'
+        if getattr(x, '_sx_symdec', False):
+            raise Unsupported('str() of symbolic decimal')
     elif a and isinstance(a[0], SymBytes):
         return a[0].decode(*a[1:], **k)
     return str(*a, **k)
 
 
 def _int_to_str(x):
-    # decimal rendering of a symbolic int: fork on sign and number of digits (bounded)
+    # decimal rendering of a symbolic int: fork on sign and number of digits (bounded); the
+    # digits are fresh variables tied to x by one linear constraint (no div/mod terms)
     e = eng()
     neg = e.branch(x.e < 0)
     v = -x.e if neg else x.e
@@ -151,9 +161,16 @@ def _int_to_str(x):
         nd += 1
         if nd > 20:
             raise Unsupported('str() of unbounded symbolic int')
-    ch = [48 + (v / (10 ** k)) % 10 for k in range(nd - 1, -1, -1)]
-    from .symstr import _simp
-    return SymStr.mk(([45] if neg else []) + _simp(ch))
+    digs = []
+    total = 0
+    for k in range(nd - 1, -1, -1):
+        d = e.fresh_int('dd', 48, 57)
+        digs.append(d)
+        total = total + (d - 48) * (10 ** k)
+    e.assume(total == v)
+    if nd > 1:
+        e.assume(digs[0] != 48)
+    return SymStr(([45] if neg else []) + digs)
 
 
 _HEX = Mask.of('0123456789abcdefABCDEF')
@@ -198,8 +215,19 @@ def _parse_int(s, base):
         ch = ch[1:]
     if not ch:
         raise ValueError('invalid literal for int()')
-    dig = Mask.rng(48, 57)
-    allowed = _HEX if base == 16 else dig
+    if base == 16 and sign == 1:
+        orig = e.memo.get('caseorig', {})
+        ids = []
+        for c in ch:
+            if isinstance(c, int):
+                ids = None
+                break
+            o = orig.get(c.get_id())
+            ids.append(o.get_id() if o is not None else c.get_id())
+        if ids:
+            hit = e.memo.get(('hexprov', tuple(ids)))
+            if hit is not None:
+                return SymInt(hit)
     val = 0
     for c in ch:
         if isinstance(c, int):
@@ -207,19 +235,62 @@ def _parse_int(s, base):
                 d = int(chr(c), base)
             except ValueError:
                 raise ValueError('invalid literal for int() with base %d' % base)
+        elif base == 16:
+            if not e.branch(_HEX.formula(c)):
+                if e.branch(_nonascii_digits().formula(c)) or e.branch(c == 95):
+                    raise Unsupported('int(x, 16) on non-ASCII digit / underscore')
+                raise ValueError('invalid literal for int() with base 16')
+            d = _hexval(c)
         else:
-            if not e.branch(allowed.formula(c)):
-                # other Unicode digits / underscores are accepted by int(); not modelled
-                und = Mask.of('_').union(_pred_mask('isdecimal')).minus(dig)
-                if e.branch(und.formula(c)):
-                    raise Unsupported('int() on non-ASCII digit / underscore')
-                raise ValueError('invalid literal for int() with base %d' % base)
-            if base == 16:
-                d = z3.If(c <= 57, c - 48, z3.If(c <= 70, c - 55, c - 87))
-            else:
-                d = c - 48
+            d = _digit_value(c)
         val = val * base + d
     return _mkint(sign * val)
+
+
+_DIGIT_BLOCKS = None
+
+
+def _digit_blocks():
+    """start code points of the blocks of ten decimal digits (Unicode category Nd)"""
+    global _DIGIT_BLOCKS
+    if _DIGIT_BLOCKS is None:
+        import unicodedata
+        starts = []
+        for cp in range(0x110000):
+            ch = chr(cp)
+            if ch.isdecimal() and unicodedata.decimal(ch) == 0:
+                if all(chr(cp + i).isdecimal() and unicodedata.decimal(chr(cp + i)) == i
+                       for i in range(10)):
+                    starts.append(cp)
+        _DIGIT_BLOCKS = starts
+    return _DIGIT_BLOCKS
+
+
+def _nonascii_digits():
+    from .symstr import _pred_mask
+    return _pred_mask('isdecimal').minus(Mask.rng(48, 57))
+
+
+def _digit_value(c):
+    """decimal digit value as int() / float() see it (any Unicode Nd digit); ValueError otherwise"""
+    if isinstance(c, int):
+        try:
+            return int(chr(c))
+        except ValueError:
+            raise ValueError('invalid literal')
+    e = eng()
+    if e.branch(Mask.rng(48, 57).formula(c)):
+        return c - 48
+    if e.branch(_nonascii_digits().formula(c)):
+        expr = None
+        for st in _digit_blocks():
+            if st == 48:
+                continue
+            expr = z3.If(z3.And(c >= st, c <= st + 9), c - st, expr if expr is not None else z3.IntVal(0))
+        return expr
+    if e.branch(c == 95):
+        raise Unsupported('underscore in numeric literal')
+    raise ValueError('invalid literal')
 
 
 def _sx_float(*a):
@@ -253,6 +324,13 @@ def _sx_ord(x):
     return ord(x)
 
 
+_HEXLOW = Mask.of('0123456789abcdef')
+
+
+def _hexval(c):
+    return z3.If(c <= 57, c - 48, z3.If(c <= 70, c - 55, c - 87))
+
+
 def _sx_hex(x):
     if isinstance(x, SymInt):
         e = eng()
@@ -263,12 +341,19 @@ def _sx_hex(x):
             nd += 1
             if nd > 16:
                 raise Unsupported('hex() of unbounded symbolic int')
-        ch = [48, 120]
-        from .symstr import _simp
+        digs = []
+        total = 0
         for k in range(nd - 1, -1, -1):
-            d = (x.e / (16 ** k)) % 16
-            ch.append(z3.If(d < 10, 48 + d, 87 + d))
-        return SymStr.mk(_simp(ch))
+            d = e.fresh_int('hd', 48, 102)
+            e.assume(_HEXLOW.formula(d))
+            digs.append(d)
+            total = total + _hexval(d) * (16 ** k)
+        e.assume(total == x.e)
+        if nd > 1:
+            e.assume(digs[0] != 48)
+        # provenance: int(<these digits, in any letter case>, 16) is x again
+        e.memo[('hexprov', tuple(d.get_id() for d in digs))] = x.e
+        return SymStr([48, 120] + digs)
     return hex(x)
 
 
@@ -359,6 +444,8 @@ def _printf(fmt, args):
         if not _sym(v):
             out.append(('%' + spec + conv) % (v,))
             continue
+        if conv == 'f' and isinstance(v, SymInt):
+            raise Unsupported('%f of symbolic int')
         if spec:
             raise Unsupported('format spec %r on symbolic value' % spec)
         if conv == 's':
@@ -367,6 +454,8 @@ def _printf(fmt, args):
             out.append(_sx_repr(v))
         elif conv in 'di':
             out.append(_sx_str(_sx_int(v)))
+        elif conv == 'f' and getattr(v, '_sx_symdec', False):
+            out.append(v.format_f())
         else:
             raise Unsupported('format conversion %%%s on symbolic value' % conv)
     if mapping is None and ai != len(args):
@@ -488,6 +577,21 @@ def _str_format(fmt, a, k):
     return symre._join(out, False)
 
 
+def _sx_urljoin(base, url, *a, **k):
+    import urllib.parse
+    if isinstance(base, SymStr) and base.is_concrete():
+        base = base.concrete()
+    if isinstance(url, SymStr) and url.is_concrete():
+        url = url.concrete()
+    if not _sym(base) and not _sym(url):
+        return urllib.parse.urljoin(base, url, *a, **k)
+    if not base:
+        return url
+    if not url:
+        return base
+    raise Unsupported('urljoin on symbolic URL with a non-empty base')
+
+
 def _sx_not(x):
     return sym_not(x) if isinstance(x, SymBool) else (not x)
 
@@ -497,11 +601,14 @@ HELPERS = {
     '_sx_isinstance': _sx_isinstance, '_sx_str': _sx_str, '_sx_int': _sx_int,
     '_sx_float': _sx_float, '_sx_chr': _sx_chr, '_sx_ord': _sx_ord, '_sx_hex': _sx_hex,
     '_sx_repr': _sx_repr, '_sx_mod': _sx_mod, '_sx_fmt': _sx_fmt, '_sx_call': _sx_call,
-    '_sx_re': symre.re_facade, '_sx_bool': _sx_bool,
+    '_sx_re': symre.re_facade, '_sx_bool': _sx_bool, '_sx_urljoin': _sx_urljoin,
 }
 
+from . import pycodecs as _pycodecs  # noqa: E402
+HELPERS['_sx_codecs'] = _pycodecs.codecs_facade
+
 # modules may register further facades (e.g. codecs) here: name -> object
-MODULE_FACADES = {'re': '_sx_re'}
+MODULE_FACADES = {'re': '_sx_re', 'codecs': '_sx_codecs'}
 
 
 # ---------------------------------------------------------------------- AST transformer
@@ -559,6 +666,9 @@ class Lifter(ast.NodeTransformer):
         f = node.func
         if isinstance(f, ast.Name) and f.id in _BUILTIN_MAP:
             node.func = ast.copy_location(ast.Name(id=_BUILTIN_MAP[f.id], ctx=ast.Load()), f)
+            return node
+        if isinstance(f, ast.Attribute) and f.attr == 'urljoin':
+            node.func = ast.copy_location(ast.Name(id='_sx_urljoin', ctx=ast.Load()), f)
             return node
         if (isinstance(f, ast.Attribute) and f.attr in _STR_METHODS
                 and not any(isinstance(a, ast.Starred) for a in node.args)
